@@ -117,6 +117,10 @@ func(gf_vect_mul_avx)
 	and     tmp, 0x1f
 	jnz     return_fail
 
+	; Nothing to do for a zero length (the loop below always handles 32 bytes)
+	test	len, len
+	jz	return_pass
+
 	FUNC_SAVE
 
 	mov	pos, 0
